@@ -236,6 +236,10 @@ pub fn drive(vectors: Option<&str>, corpus: &str, seed: u64, out: &str, thorough
     // words whose last letter takes several bytes, followed by more text
     (SupportLang::JavaScript, "carrier7".into(), "let café = 1;\nconsole.log(café, \"naïve é\", total);\n// commenté ici\nlet π = café + 1;\n".into()),
     (SupportLang::Python, "carrier8".into(), "π = 3\nnaïveté = π * 2\nprint(π, naïveté)  # commenté\n".into()),
+    // a grammar whose scanner reads the COLUMN of a token (layout blocks opened in the middle of a line): an edit that moves
+    // the rest of a line to another column without changing its bytes must still invalidate what follows on that line
+    (SupportLang::Haskell, "carrier9".into(), "f = foo\n  bar   xx (do p\n               q)\n".into()),
+    (SupportLang::Haskell, "carrier10".into(), "g x = case x of\n  1 -> a    (do b\n              c)\n  _ -> d\n".into()),
   ];
   for (l, path, text) in util::corpus(corpus) {
     if path.contains("/c.") || (thorough && text.len() < 2500) {
@@ -258,6 +262,20 @@ pub fn drive(vectors: Option<&str>, corpus: &str, seed: u64, out: &str, thorough
           for ws in ["  ", "\n", "\n  ", " ", "    "] {
             planned.push((b, 0, ws.to_string()));
           }
+        }
+      }
+    }
+    if path == "carrier9" || path == "carrier10" {
+      // every run of blanks inside a line: k of them replaced by a line break and k blanks (and the plain insertions)
+      let b = text.as_bytes();
+      for at in 1..b.len() {
+        if b[at - 1] == b' ' && b[at] == b' ' {
+          for k in 1..=4usize {
+            if at + k <= b.len() && b[at..at + k].iter().all(|c| *c == b' ') {
+              planned.push((at, k, format!("\n{}", " ".repeat(k))));
+            }
+          }
+          planned.push((at, 0, "\n   ".to_string()));
         }
       }
     }
